@@ -309,44 +309,33 @@ func goC02(c *Ctx, r *Repo) {
 		c.Fail("R02.1", "LookupInterface|missing", "template/registry.go", "Registry.LookupInterface not found")
 	} else {
 		c.Func(funcKey(tp, li))
-		tinfo := tp.TypesInfo
-		nameObj := tinfo.Defs[li.Type.Params.List[0].Names[0]]
-		var objVar types.Object
-		ast.Inspect(li.Body, func(n ast.Node) bool {
-			as, ok := n.(*ast.AssignStmt)
-			if !ok || len(as.Rhs) != 1 || len(as.Lhs) != 1 {
-				return true
+		// every successful return yields the completed underlying interface of the object found by
+		// name in the source package's scope, after that object was seen non-nil and an interface
+		d := newDT(tp.TypesInfo)
+		d.getters = pkgGetters(tp)
+		d.paths = nil
+		d.stmts(seedEnv(d, li), li.Body.List, func(p *dtPath) { d.finish(p, "end") })
+		const obj = "RECV.srcPkg.Types.Scope().Lookup(ARG0)"
+		good := false
+		for _, p := range d.paths {
+			if p.Exit != "return" || len(p.Ret) != 3 || p.Ret[2] != "nil" {
+				continue
 			}
-			call, ok := as.Rhs[0].(*ast.CallExpr)
-			if ok && calleeName(tinfo, call) == "(go/types.Scope).Lookup" && len(call.Args) == 1 {
-				if a, ok := call.Args[0].(*ast.Ident); ok && tinfo.Uses[a] == nameObj && strings.Contains(types.ExprString(call.Fun), "SrcPkg") {
-					objVar = objOf(tinfo, as.Lhs[0].(*ast.Ident))
+			isNil, hasNil := false, false
+			isIface, hasIface := false, false
+			for _, a := range p.Atoms {
+				switch stripRes(a.Expr) {
+				case obj + " == nil":
+					isNil, hasNil = a.Val, true
+				case "go/types.IsInterface(" + obj + ".Type())":
+					isIface, hasIface = a.Val, true
 				}
 			}
-			return true
-		})
-		good := false
-		ast.Inspect(li.Body, func(n ast.Node) bool {
-			rs, ok := n.(*ast.ReturnStmt)
-			if !ok || len(rs.Results) != 3 || !isNilIdent(tinfo, rs.Results[2]) {
-				return true
+			good = stripRes(p.Ret[0]) == obj+".Type().Underlying().(*types.Interface).Complete()" && hasNil && !isNil && hasIface && isIface
+			if !good {
+				break
 			}
-			// first result: obj.Type().Underlying().(*types.Interface).Complete()
-			call, ok := rs.Results[0].(*ast.CallExpr)
-			if !ok || calleeName(tinfo, call) != "(go/types.Interface).Complete" {
-				return true
-			}
-			ta, ok := call.Fun.(*ast.SelectorExpr).X.(*ast.TypeAssertExpr)
-			if !ok {
-				return true
-			}
-			s := types.ExprString(ta.X)
-			root, _ := selChainCalls(ta.X)
-			if root != nil && objVar != nil && tinfo.Uses[root] == objVar && strings.HasSuffix(s, ".Type().Underlying()") {
-				good = true
-			}
-			return true
-		})
+		}
 		if good {
 			c.OK("R02.1", "LookupInterface|complete-underlying", r.Pos(li.Pos()), "returns Scope().Lookup(name).Type().Underlying().(*types.Interface).Complete()")
 		} else {
@@ -678,34 +667,28 @@ func goR024(c *Ctx, r *Repo, ip *packages.Package, rule string) {
 		return
 	}
 	c.Func(funcKey(ip, visit))
-	skips := map[string]bool{}
-	ast.Inspect(visit.Body, func(n ast.Node) bool {
-		cc, ok := n.(*ast.CaseClause)
-		if !ok {
-			return true
-		}
-		returnsNil := false
-		for _, s := range cc.Body {
-			if rs, ok := s.(*ast.ReturnStmt); ok && len(rs.Results) == 1 && isNilIdent(info, rs.Results[0]) {
-				returnsNil = true
+	// decision table of Visit over the node's dynamic type (type switch or comma-ok assertions)
+	paths, _ := enumerateFunc(info, visit)
+	returnsNilFor := func(kind string) bool {
+		n := 0
+		for _, p := range paths {
+			if !visitConsistent(p, "ARG0", kind) {
+				continue
+			}
+			n++
+			if p.Exit != "return" || len(p.Ret) != 1 || p.Ret[0] != "nil" {
+				return false
 			}
 		}
-		if !returnsNil {
-			return true
-		}
-		for _, e := range cc.List {
-			if t := info.TypeOf(e); t != nil {
-				skips[types.TypeString(t, nil)] = true
-			}
-		}
-		return true
-	})
-	blocks := skips["*go/ast.BlockStmt"]
-	for _, t := range []string{"*go/ast.FuncDecl", "*go/ast.FuncLit"} {
-		if skips[t] || blocks {
-			c.OK(rule, "Visit|skip|"+t, r.Pos(visit.Pos()), "Visit returns nil for "+t)
+		return n > 0
+	}
+	blocks := returnsNilFor("*ast.BlockStmt")
+	for _, t := range []string{"*ast.FuncDecl", "*ast.FuncLit"} {
+		gt := strings.Replace(t, "*ast.", "*go/ast.", 1)
+		if blocks || returnsNilFor(t) {
+			c.OK(rule, "Visit|skip|"+gt, r.Pos(visit.Pos()), "Visit returns nil for "+gt)
 		} else {
-			c.Fail(rule, "Visit|descends|"+t, r.Pos(visit.Pos()), "NodeVisitor.Visit descends into "+t+" bodies: a function-local type named like a package-level interface is collected and that interface is mocked twice")
+			c.Fail(rule, "Visit|descends|"+gt, r.Pos(visit.Pos()), "NodeVisitor.Visit descends into "+gt+" bodies: a function-local type named like a package-level interface is collected and that interface is mocked twice")
 		}
 	}
 	// the lookup of each discovered name is nil-checked before use
@@ -790,4 +773,21 @@ func terminates(b *ast.BlockStmt) bool {
 		return isPanicCall(x.X)
 	}
 	return false
+}
+
+// visitConsistent: can the path be taken when the value printed as subject has dynamic type kind?
+// Atoms "<subject>.(T)#ok" must be true exactly for T == kind; other atoms are free.
+func visitConsistent(p *dtPath, subject, kind string) bool {
+	for _, a := range p.Atoms {
+		if strings.HasPrefix(a.Expr, subject+".(") && strings.HasSuffix(a.Expr, ")#ok") {
+			t := a.Expr[len(subject)+2 : len(a.Expr)-4]
+			if strings.Contains(t, ")") {
+				continue // an assertion on something selected from the subject
+			}
+			if (t == kind) != a.Val {
+				return false
+			}
+		}
+	}
+	return true
 }
